@@ -1,7 +1,7 @@
 import sys; sys.path.insert(0, '/verif/harness')
 import mkprops as m
 P = 'Proofs/Wire.v'
-IMP = 'From BE Require Import Model.Wire Proofs.Wire Gen.Regexes Proofs.Pins Gen.Skeleton Proofs.SkeletonPin.\nLocal Open Scope string_scope.\nLocal Open Scope nat_scope.'
+IMP = 'From BE Require Import Model.Wire Proofs.Wire Gen.Regexes Proofs.Pins Gen.Skeleton Proofs.SkeletonPin Gen.WireFns Proofs.WireGen.\nLocal Open Scope string_scope.\nLocal Open Scope nat_scope.'
 m.write('C19', 'Protocol messages mean the same to both ends and framing always terminates.', IMP, '', [
  (P, 'call_roundtrip', 'C19_call', 'all 38 calls x 4 seats'),
  (P, 'call_any_case', 'C19_call_any_case', 'in any letter case'),
@@ -21,6 +21,9 @@ m.write('C19', 'Protocol messages mean the same to both ends and framing always 
  (P, 'eof_inside', 'C19_eof_inside', None),
  (P, 'eof_after_cr', 'C19_eof_after_cr', None),
  (P, 'eof_anywhere', 'C19_eof_anywhere', None),
+ ('Proofs/WireGen.v', 'g_send_message_eq', 'C19_generated_send_is_hand_model', 'send_message REGENERATED from socket_interface.py on every run (harness/gen_wire.py) equals the hand model'),
+ ('Proofs/WireGen.v', 'g_receive_message_eq', 'C19_generated_receive_is_hand_model', 'receive_message regenerated (the byte loop on explicit fuel, proved sufficient) equals the hand model on EVERY byte stream - streams that end inside a message, after a CR, or with a CR not followed by LF included'),
+ ('Proofs/WireGen.v', 'g_send_receive', 'C19_generated_send_receive', 'what the regenerated sender frames the regenerated receiver returns, whatever follows'),
  ('Proofs/SkeletonPin.v', 'framing_skeleton_pinned', 'C19_framing_skeleton_is_the_modelled_one', 'the structure of send_message / receive_message (socket calls, loop, returns), re-extracted from the source on this run, is the one Model/Wire.v mirrors'),
  ('Proofs/Pins.v', 'pins_wire', 'C19_regex_pins', 'the patterns of the parsers, regenerated from the source on every run, are the ones the matchers of Model/Wire.v mirror'),
  (P, 'ex_alert_read', 'C19_example_alert', 'non-vacuity'),
